@@ -5,9 +5,10 @@ CONSTANTS
   MaxBatch = 2
   MaxPerEpoch = 2
   Export = TRUE
+  WithOther = FALSE
 INIT MCInit
 NEXT MCNext
 VIEW View
-INVARIANTS TypeOK EpochCountsEffective LeafShape LookupSoundOnHonest
+INVARIANTS TypeOK EpochCountsEffective LeafShape EveryEpochInserts LookupSoundOnHonest
 PROPERTY CommittedOnlyGrows
 CHECK_DEADLOCK FALSE
